@@ -32,6 +32,7 @@ from ..ctx import HarnessError, LoopBoundExceeded
 BAND = 1e-12
 
 META = {
+    'refill': True,      # cases presented in a reused buffer are followed by a refill of that buffer (runner)
     'rule': ('cases = (a) dyadic/integer curves (n 3..40; small-integer, plateau, dyadic k/8, corner-shaped and '
              'near-vertical y profiles over integer / dyadic x gaps) and (b) the 12 generic curve families '
              '(n 2..60; thorough adds n 80..600), each x {C,F,view,int64} layout x an ascending numpy int knee list '
@@ -415,6 +416,14 @@ def cases(rng, tier, shard, nshards):
             pts, meta = gen.curve(rng, nmax=60)
             fam = meta['family']
         knees = _knees(rng, len(pts))
+        if r >= 0.5 and rng.random() < 0.12 and len(knees) >= 3:
+            # near-ties that are NOT ties: knee heights that differ from each other by a few parts in 1e10 / 1e13
+            pts = pts.copy()
+            base = float(pts[np.asarray(knees)[0], 1]) or 1.0
+            delta = float(pick(rng, [4e-10, 1e-10, 2e-13, 1e-15]))
+            steps = np.cumsum(rng.integers(-1, 3, len(knees)))
+            pts[np.asarray(knees, dtype=int), 1] = abs(base) * (1.0 + delta * steps)
+            fam = fam + '+near-tie-heights'
         yield {'points': pts, 'family': fam, 'layout': gen.pick_layout(rng, pts, 0.6),
                'knees': knees, 'ts': _thresholds(rng, pts, knees),
                'even': bool(rng.random() < 0.2),
